@@ -367,7 +367,11 @@ fn gather_features(
         }
     } else {
         for feature in input_features {
-            features.push_front(feature.to_string());
+            if builtin_features.contains_key(feature) {
+                gather_builtin_features_recursively(feature, &mut features, builtin_features, opt);
+            } else {
+                features.push_front(feature.to_string());
+            }
         }
     }
 
